@@ -122,13 +122,15 @@ theorem base64_no_oob (inp : List Nat) : fromBase64 inp ≠ .oob := by
   rw [hr]; intro h; cases h
 
 /-- the table-index part of `base64_no_oob` on its own: a byte that passes the guard indexes below 123 -/
-theorem base64_index_lt_table (b : Nat) (h : ¬ (base64GuardOperand b > base64GuardLimit)) :
+theorem base64_index_lt_table (b : Nat) (h : base64GuardRejects b = false) :
     0 ≤ base64Index b ∧ (base64Index b).toNat < base64de.length := by
-  unfold base64GuardOperand base64GuardLimit at h
+  unfold base64GuardRejects at h
+  rw [decide_eq_false_iff_not] at h
   unfold base64Index
   rw [b64_table_len]
   omega
 
+example : base64GuardRejects 65 = false ∧ base64GuardRejects 0x80 = true := by decide
 example : Spec.rfc4648Encode [0x66, 0x6F] = [90, 109, 56, 61] := by decide           -- "fo" -> "Zm8="
 example : fromBase64 [90, 109, 56, 61] = .ok [0x66, 0x6F] := by decide
 example : fromBase64 [0xFF, 0xFF, 0xFF, 0xFF] = .ok [] := by decide                   -- D26 input: rejected, no fault
